@@ -16,7 +16,7 @@ from vlib import tla_str, tla_set
 ALGOS = ["plain", "md5", "sha256", "bcrypt"]
 SHAPES = ["v31", "v311", "v5", "v5am", "v5amd", "v5am0"]      # am0: Authentication Method present with a zero-length name
 PREKINDS = ["subscribe", "pubret", "unsubscribe", "pingreq", "auth", "disconnect", "connect2"]
-PREPHASES = ["before", "afterfail", "pipelined"]
+PREPHASES = ["before", "afterfail", "pipelined", "burst"]
 PREVERS = ["v31", "v311", "v5"]
 
 _lock = threading.Lock()
